@@ -30,7 +30,7 @@ for name, (prop, needs) in NEEDS.items():
     if prop == "none":
         meta["caught_by_quick"] = []
         meta["must_pass_quick"] = {"M11": ["C04", "C06", "C20"], "N01": ["C05", "C07", "C14"], "N02": ["C03", "C12", "C20"], "N03": ["C01", "C09", "C10", "C11"],
-                                   "N04": ["C01", "C09"], "N05": ["C03", "C05"], "N06": ["C18", "C12"], "N07": ["C19"], "N08": ["C01", "C03", "C07"]}.get(name, ["C01"])
+                                   "N04": ["C01", "C09"], "N05": ["C03", "C05"], "N06": ["C18", "C12"], "N07": ["C19"], "N08": ["C01", "C03", "C07"], "N09": ["C05", "C08", "C15"], "N10": ["C16", "C17", "C12"], "N11": ["C04", "C20", "C06"]}.get(name, ["C01"])
         meta["origin"] = "written by the harness author: a refactoring under which every property still holds; no check may report it"
         meta["matrix_result"] = "no check fired" if c == [] else ("not run" if c is None else f"FALSE ALARM: {c}")
     if name.startswith("M") or name.startswith("N"):
